@@ -421,19 +421,19 @@ class MinMaxAggregator:
         # only variables that are global in the statement are shared with other literals:
         # two aggregates may both call a local variable I
         global_variables = global_vars_inside_body(list(rule.body))
-        for blit in rule.body:
-            if blit == agg:
-                continue
-            blit_vars = set(x for x in collect_ast(blit, "Variable") if x.name != "_" and x in global_variables)
-            if len(blit_vars.intersection(inside_variables)) != 0:
-                rest_vars.update(blit_vars)
-                lits_with_vars.append(blit)
-            else:
-                lits_without_vars.append(blit)
         result_variables: set[AST] = set()
         for guard in (agg.atom.left_guard, agg.atom.right_guard):
             if guard is not None:
                 result_variables.update(collect_ast(guard, "Variable"))
+        for blit in rule.body:
+            if blit == agg:
+                continue
+            blit_vars = set(x for x in collect_ast(blit, "Variable") if x.name != "_" and x in global_variables)
+            if len(blit_vars.intersection(inside_variables)) != 0 and not blit_vars.intersection(result_variables):
+                rest_vars.update(blit_vars)
+                lits_with_vars.append(blit)
+            else:
+                lits_without_vars.append(blit)
         # a literal that binds a variable of an already selected literal belongs to the group as well
         # (X = #sum { ..U.. } needs the s(U) that binds U)
         changed = True
